@@ -19,7 +19,7 @@ EXPLANATION = (
     "name - R8 - are followed to their consumer).")
 ASSUMPTIONS = ["program_options::variables_map::count(k) > 0 iff option k was given", "${ENV:default} placeholders in the default ini are expanded by the ini module from the environment"]
 THOROUGH_CONFIGS = [["-UNDEBUG", "-DPIKA_DEBUG"]]
-FLOORS = {"C16.R1": 11, "C16.R2": 10, "C16.R3": 8, "C16.R4": 3, "C16.R6": 1, "C16.R7": 1, "C16.R8": 1, "C16.R9": 8, "C16.R10": 1}
+FLOORS = {"C16.R11": 1, "C16.R1": 11, "C16.R2": 10, "C16.R3": 8, "C16.R4": 3, "C16.R6": 1, "C16.R7": 1, "C16.R8": 1, "C16.R9": 8, "C16.R10": 1}
 
 SETTINGS = [  # (command line option, ini key, environment variable, handler)
     ("pika:threads", "pika.os_threads", "PIKA_THREADS", "handle_num_threads"),
@@ -62,6 +62,11 @@ def run(rep, tier):
     rep.rule("C16.R5", "K8 (writer/reader agreement): the stack-size defaults the configuration writes (hexadecimal literals) are parsed by a reader that accepts that notation; a value that does not parse is not replaced silently by a different number")
     rep.rule("C16.R6", "K2/K8: precedence between PIKA_COMMANDLINE_OPTIONS and the command line: the two token sources are not handed to one parser run as a plain "
              "concatenation while single-valued options exist (one run rejects a repeated single-valued option instead of letting the command line win)")
+    rep.rule("C16.R11", "K8 (order-sensitive container): the resolved --pika:ini entries are collected by manage_config::add in the order environment "
+             "(PIKA_COMMANDLINE_OPTIONS tokens, prepended) -> command line; the handlers read worker count, cores, scheduler, binding ... from that map, the ini tree "
+             "applies the same lines last-wins.  add() therefore lets a later entry replace an earlier one for the same key (operator[] / insert_or_assign), never "
+             "first-wins (insert / emplace / try_emplace) - otherwise the environment's --pika:ini=pika.os_threads=N beats the command line's")
+    manage_config_rules(rep)
     rep.rule("C16.R10", "K8 (conflict checks vs. defaults): the check that refuses pu-step / pu-offset / affinity together with a binding description is switched off under the built-in "
              "default of pika.bind (a valid command-line option must not be rejected because of another setting's default)")
     rep.rule("C16.R9", "K8 (environment reach): every handler's fallback reads the runtime configuration's entry for its key (where ${ENV:default} is expanded) - itself or through "
@@ -658,3 +663,34 @@ def run(rep, tier):
 
 def pre_name(pre):
     return "default ini"
+
+
+def manage_config_rules(rep):
+    MC = facts(rep, lib("util", "src/manage_config.cpp"), [r"^pika::detail::manage_config::add$"])
+    fs = [f for f in MC.find(r"manage_config::add$") if f.parent == -1]
+    if len(fs) != 1:
+        raise AnalysisBroken("manage_config::add not found")
+    fn = fs[0]
+    stores = []
+    for b, i, e in fn.all_events():
+        if e.get("k") != "call":
+            continue
+        r_ = P(e.get("recv")) if e.get("recv") is not None else ""
+        if r_ == "this->config_" and callee_short(e) in ("insert", "emplace", "try_emplace", "insert_or_assign", "operator[]", "emplace_hint"):
+            stores.append((b, i, e, callee_short(e)))
+        if e.get("op") == "[]" and r_ == "this->config_":
+            stores.append((b, i, e, "operator[]"))
+    if not stores:
+        raise AnalysisBroken("manage_config::add: no store into config_ found")
+    for b, i, e, how in stores:
+        if how in ("insert_or_assign", "operator[]"):
+            rep.ok("C16.R11", fn, "a later entry replaces an earlier one for the same key (%s)" % how)
+        else:
+            # insert preceded by an erase of the same key on every path is last-wins as well
+            from engine.kinds import precedes_on_all_paths as _ppa
+            if _ppa(fn, lambda x: x.get("k") == "call" and callee_short(x) == "erase" and x.get("recv") is not None and P(x["recv"]) == "this->config_", (b, i)):
+                rep.ok("C16.R11", fn, "the key is erased before it is inserted (last entry wins)")
+            else:
+                rep.bad("C16.R11", fn, loc_of(e), "first-entry-wins", "manage_config::add stores entries with config_.%s, which keeps the FIRST value of a key: the --pika:ini lines are added in the "
+                        "order environment (PIKA_COMMANDLINE_OPTIONS) -> command line, so for every setting the handlers read from this map (pika.os_threads, pika.cores, "
+                        "pika.scheduler, pika.bind, ...) the environment's entry beats the command line's, while the ini tree applies the same lines last-wins" % how)
